@@ -235,6 +235,18 @@ func init() {
 		"vsRunUntilBlocked": func(ex *Exec, st *State, fn *ssa.Function, args []Value, site ssa.Instruction) Value {
 			return ex.runUntilBlocked(st, args[0], site)
 		},
+		// vsSpawned(): number of goroutines started so far; vsRunSpawned(k): run the k-th one (from its start) until it
+		// returns or blocks, like vsRunUntilBlocked; true iff it returned
+		"vsSpawned": func(ex *Exec, st *State, fn *ssa.Function, args []Value, site ssa.Instruction) Value {
+			return i64(int64(len(ex.spawned)))
+		},
+		"vsRunSpawned": func(ex *Exec, st *State, fn *ssa.Function, args []Value, site ssa.Instruction) Value {
+			k := ex.argInt(args[0])
+			if k < 0 || k >= len(ex.spawned) {
+				panic(unsupported("vsRunSpawned: no such goroutine"))
+			}
+			return ex.runUntilBlockedArgs(st, ex.spawned[k].fn, ex.spawned[k].args, site)
+		},
 		// vsSetLockHook(f func(lock string)): f runs before every Lock/RLock acquisition (a scheduling point at which the
 		// harness may let another thread's requests run); not re-entered from inside itself
 		"vsSetLockHook": func(ex *Exec, st *State, fn *ssa.Function, args []Value, site ssa.Instruction) Value {
